@@ -43,7 +43,7 @@ Definition remediate (keep1 keep2 : nat) (sl : slots) : slots :=
 Definition recover_inner (sl : slots) : option (nat * nat) * slots :=
   match two_newest sl with
   | (Some (ni, nh), Some (si, sh)) =>
-      if is_awip nh && negb (kind_is_fw nh) && is_awip sh && kind_is_fw sh && (hsize nh =? hsize sh)%N && fits (hsize sh) (hcount sh)
+      if is_awip nh && negb (kind_is_fw nh) && is_awip sh && kind_is_fw sh && (hsize nh =? hsize sh)%N && fits (hsize sh) (hcount sh) && (hcount nh <=? 2048)%N
       then (Some (si, ni), remediate ni si sl)
       else (None, sl)
   | _ => (None, sl)
@@ -210,13 +210,13 @@ Variable fits : N -> N -> bool.
 (* C13: a start that ran to completion is found again by recovery, whatever the ring looked like before *)
 Theorem recover_finds_started N sl a b s1 s2 sz cnt cap :
   (2 <= N)%nat -> reach N sl -> nowrap sl -> alloc_repaired sl = Ok (a, b, s1, s2) ->
-  fits sz cnt = true ->
+  fits sz cnt = true -> (cap <= 2048)%N ->
   let h1 := mkhdr Firmware s1 sz cnt EInProgress IInProgress Untested in
   let h2 := mkhdr Parity s2 sz cap EInProgress IInProgress Untested in
   let sl2 := setnth (setnth sl a (Some h1)) b (Some h2) in
   fst (recover_inner fits sl2) = Some (a, b).
 Proof.
-  intros HN HR HW EA Hfit h1 h2 sl2.
+  intros HN HR HW EA Hfit Hcap h1 h2 sl2.
   destruct (reach_exact N sl HN HR) as [Hl HS].
   pose proof (alloc_form_unique sl a b s1 s2 HW EA) as HF.
   destruct (VExact_alloc sl a b s1 s2 h1 h2 ltac:(lia) HS HW HF eq_refl eq_refl) as (La & Lb & Nab & S12 & Hoth & HS2e).
@@ -254,6 +254,6 @@ Proof.
   { assert (Q : (hseq (snd (a, h1)) <= hseq (snd s2'))%N) by (apply Hs2m; [exact Ia| intros C; inversion C; congruence]).
     cbn [snd h1 hseq] in Q. destruct (CLS s2' Hs2) as [->|[->|C]]; [reflexivity| contradiction| lia]. }
   subst s2'. cbn [is_awip kind_is_fw total_status h1 h2 hext hint hboot hkind hsize hcount negb andb].
-  rewrite N.eqb_refl, Hfit. reflexivity.
+  rewrite N.eqb_refl, Hfit. apply N.leb_le in Hcap. rewrite Hcap. reflexivity.
 Qed.
 End Complete.
